@@ -236,10 +236,7 @@ func createCompiledRouteHandler(route *ast.Route, bytecode []byte, wsHub *websoc
 		// Unwrap status-carrying results from guards and `> value :: N`
 		// (see compiler.StatusKey).
 		if body, status, ok := unwrapStatusResult(result); ok {
-			ctx.StatusCode = status
-			ctx.ResponseWriter.Header().Set("Content-Type", "application/json")
-			ctx.ResponseWriter.WriteHeader(status)
-			return json.NewEncoder(ctx.ResponseWriter).Encode(body)
+			return writeJSONResponse(ctx, status, body)
 		}
 
 		// Set response
@@ -315,12 +312,7 @@ func createRouteHandler(route *ast.Route, interp *interpreter.Interpreter) serve
 
 		// Default JSON response, honoring the interpreter's status code
 		// (guards and `> value :: N` set non-200 values).
-		ctx.StatusCode = response.StatusCode
-		ctx.ResponseWriter.Header().Set("Content-Type", "application/json")
-		if response.StatusCode != http.StatusOK {
-			ctx.ResponseWriter.WriteHeader(response.StatusCode)
-		}
-		return json.NewEncoder(ctx.ResponseWriter).Encode(response.Body)
+		return writeJSONResponse(ctx, response.StatusCode, response.Body)
 	}
 }
 
@@ -861,6 +853,23 @@ func sendClientError(ctx *server.Context, message string) error {
 // the client. WriteHeader must be called before the body is written: writing
 // first makes net/http commit an implicit 200, so a failed route would report
 // success to the caller.
+// writeJSONResponse encodes body before the status line goes out, so that a
+// value JSON cannot carry (NaN, +-Inf) is reported as a 500 rather than as the
+// route's own status followed by an error body.
+func writeJSONResponse(ctx *server.Context, status int, body interface{}) error {
+	data, err := json.Marshal(body)
+	if err != nil {
+		return writeInternalError(ctx, fmt.Errorf("response encoding failed: %w", err))
+	}
+	ctx.StatusCode = status
+	ctx.ResponseWriter.Header().Set("Content-Type", "application/json")
+	if status != http.StatusOK {
+		ctx.ResponseWriter.WriteHeader(status)
+	}
+	_, err = ctx.ResponseWriter.Write(append(data, '\n'))
+	return err
+}
+
 func writeInternalError(ctx *server.Context, err error) error {
 	printError(err)
 	ctx.StatusCode = http.StatusInternalServerError
